@@ -11,8 +11,17 @@ def _prep():
         shutil.copy(lock, os.path.join(KDIR, 'Cargo.lock'))
 
 
-def ksrc_hash():
-    return dir_hash(os.path.join(KDIR, 'src'))
+def ksrc_hash(harness=None):
+    """hash of the harness sources a given harness depends on (its module, common.rs, and lin.rs for conv)"""
+    import hashlib
+    mod = (harness or '').split('::')[0]
+    files = {'lin': ['common.rs', 'lin.rs'], 'conv': ['common.rs', 'lin.rs', 'conv.rs'], 'dec': ['common.rs', 'dec.rs'], 'toy': ['common.rs', 'toy.rs']}.get(mod)
+    if not files:
+        return dir_hash(os.path.join(KDIR, 'src'))
+    h = hashlib.sha256()
+    for f in files + ['../Cargo.toml']:
+        h.update(open(os.path.join(KDIR, 'src', f), 'rb').read())
+    return h.hexdigest()[:16]
 
 
 def parse_log(text):
@@ -151,14 +160,14 @@ def decide(pid, specs, tier, timeout_s=None, pool=None):
     """specs: list of dict(harness=qualified, statement, functions, bounds, assumptions, [known_ok]).
     Returns list of Obl with verdicts; violations are replayed natively before being reported."""
     timeout_s = timeout_s or (900 if tier == 'quick' else 3600)
-    th, kh = tree_hash(), ksrc_hash()
+    th = tree_hash()
     obls = []
     todo = []
     for s in specs:
         o = Obl(s['harness'].split('::')[-1], 'K', s['statement'], s.get('functions'),
                 s.get('bounds', ''), s.get('assumptions', []))
         o.harness = s['harness']
-        key = 'K|%s|%s|%s' % (th, kh, s['harness'])
+        key = 'K|%s|%s|%s' % (th, ksrc_hash(s['harness']), s['harness'])
         o.key = key
         c = cache_get(key)
         if c and c.get('status') == 'proved':
